@@ -105,7 +105,7 @@ CONTROLS = {"pause": 2, "pause2": 1, "resume": 2, "cancel": 1}
 def strategy(tier):
     from hypothesis import strategies as st
 
-    base = gen.scenario(CFG, flags=FLAGS, max_choices=60, controls=CONTROLS)
+    base = gen.scenario(CFG, flags=FLAGS, max_choices=60, controls=CONTROLS, canceled=True)
     return st.builds(lambda s, rr: dict(s, rerun=rr), base, st.booleans())
 
 
